@@ -457,6 +457,10 @@ impl Run {
         for (k, v) in &self.extra {
             coverage[k] = v.clone();
         }
+        let notes: Vec<String> = SOFT_NOTES.lock().unwrap().clone();
+        if !notes.is_empty() {
+            coverage["notes"] = json!(notes);
+        }
         if !self.inconclusive.is_empty() {
             coverage["inconclusive"] = json!(self.inconclusive);
         }
@@ -595,6 +599,8 @@ where
 ///   real-time cap) is never a violation: the case is skipped and the run ends inconclusive (exit 2);
 /// * a `*-hangs` signature (real-time watchdog on a deterministic, virtual-time case) counts only when the
 ///   same input hangs again on an immediate second evaluation.
+pub static SOFT_NOTES: std::sync::Mutex<Vec<String>> = std::sync::Mutex::new(Vec::new());
+
 pub fn evaluate<T, F: Fn(&T) -> Verdict>(oracle: &F, v: &T, infra: &RefCell<Option<String>>) -> Verdict {
     let mut verdict = guarded(|| oracle(v));
     if let Verdict::Fail { signature, .. } = &verdict {
@@ -602,7 +608,9 @@ pub fn evaluate<T, F: Fn(&T) -> Verdict>(oracle: &F, v: &T, infra: &RefCell<Opti
             let first = signature.clone();
             verdict = guarded(|| oracle(v));
             if matches!(verdict, Verdict::Pass(_)) {
-                infra.borrow_mut().get_or_insert(format!("{first}: watchdog fired once, not on re-evaluation"));
+                // a real-time cap hit that does not repeat is the machine's doing (overload), not a verdict; it is
+                // recorded in the evidence and the case counts with the outcome of its second evaluation
+                SOFT_NOTES.lock().unwrap().push(format!("{first}: the real-time watchdog fired once for a case that completed on immediate re-evaluation"));
             }
         }
     }
